@@ -104,6 +104,9 @@ type dbListSpec struct {
 	Rm []dbItem `json:"rm,omitempty"`
 	// Restart: encode the list and decode it again before it is used
 	Restart bool `json:"restart,omitempty"`
+	// Hdr > 0: the list carries a SignatureHeader of that many bytes (types whose
+	// decoder does not insist on an empty header)
+	Hdr int `json:"hdr,omitempty"`
 }
 
 type dbOp struct {
@@ -230,6 +233,9 @@ func genListSpec(r *R, types []int, nown int, wellFormedOnly bool) dbListSpec {
 			}
 		}
 		l.Restart = r.Chance(1, 5)
+		if dbTypes[t].Kind != "supported" && dbTypes[t].Kind != "extmgmt" && r.Chance(1, 2) {
+			l.Hdr = Pick(r, []int{1, 4, 16, 23})
+		}
 	}
 	return l
 }
@@ -485,6 +491,13 @@ func buildList(x *X, i int, kind string, spec dbListSpec) (*signature.SignatureL
 		l = nl
 		x.Probe("list_restart")
 	}
+	if spec.Hdr > 0 && len(l.Signatures) > 0 {
+		// the exported fields are the only way to give a list a header
+		l.SignatureHeader = bytes.Repeat([]byte{0xC3}, spec.Hdr)
+		l.HeaderSize = uint32(spec.Hdr)
+		l.ListSize += uint32(spec.Hdr)
+		x.Probe("list_with_header")
+	}
 	one := signature.SignatureDatabase{l}
 	if len(l.Signatures) > 0 {
 		if o, d := dbWellFormed(&one); o != "" {
@@ -584,6 +597,7 @@ func (e *dbhistEngine) Exec(tr *Trace, x *X) {
 
 	mut := 0
 	nonEmpty := false
+	var aux []*signature.SignatureDatabase // databases that were merged into db and are still alive
 	for i, op := range ops {
 		if x.Failed() {
 			return
@@ -754,6 +768,11 @@ func (e *dbhistEngine) Exec(tr *Trace, x *X) {
 					for _, dl := range *db {
 						if dl.SignatureType == l.SignatureType && dl.Size == l.Size {
 							same++
+							if !bytes.Equal(dl.SignatureHeader, l.SignatureHeader) {
+								// the statement's view has no headers: whether a list with another header
+								// "is" the queried list is not fixed by it -- accept either answer
+								same += 2
+							}
 						}
 					}
 					got := db.Exists(l.SignatureType, l)
@@ -799,6 +818,9 @@ func (e *dbhistEngine) Exec(tr *Trace, x *X) {
 					n += len(l.Signatures)
 				}
 				db.AppendDatabase(other)
+				if len(*other) > 0 {
+					aux = append(aux, other)
+				}
 				after := viewOf(db)
 				x.Logf("op %d AppendDatabase(%d lists, %d entries)  |view|=%d", i, len(*other), n, len(after))
 				if !(isSubsequence(before, after) && len(after) == len(before)+n) {
@@ -856,6 +878,15 @@ func (e *dbhistEngine) Exec(tr *Trace, x *X) {
 			sig["bad_list"] = dbBadListClass(db)
 			fail(o, "after the operation: %s", d)
 			return
+		}
+		// a database that was merged into this one is still a database of its own
+		for k, a := range aux {
+			if o, d := dbWellFormed(a); o != "" {
+				sig["which"] = "merged_source"
+				fail(o, "database %d, which was appended to this one earlier and is still in use: %s", k, d)
+				return
+			}
+			x.Probe("merged_source_checked")
 		}
 		v := viewOf(db)
 		if len(v) > 0 {
